@@ -197,7 +197,7 @@ def vacuity_probe(unit, modules):
             probe_lines[len(new_lines)] = f
     unit2 = weave.Unit(unit.name)
     unit2.lines, unit2.origin = new_lines, new_origin
-    path = runverus.write_unit(unit2, '.probe')
+    path = runverus.write_unit(unit2, '_probe')
     failed_fns = set()
 
     def one(m):
@@ -211,6 +211,8 @@ def vacuity_probe(unit, modules):
                     if s[0] and os.path.basename(s[0]) == os.path.basename(path) and s[1] in probe_lines:
                         failed_fns.add((probe_lines[s[1]].module, probe_lines[s[1]].addr))
     expected = set((f.module, f.addr) for f in probe_lines.values())
+    if not failed_fns and expected:
+        return dict(probed=len(expected), reachable=0, vacuous=[], error='probe run produced no assertion failure at all (tool problem, not vacuity)')
     vacuous = sorted('%s.%s' % x for x in (expected - failed_fns))
     return dict(probed=len(expected), reachable=len(failed_fns), vacuous=vacuous)
 
@@ -359,6 +361,8 @@ def check_property(prop, tier='quick', seed=0, kani_runner=None):
     if tier == 'thorough':
         try:
             vac = vacuity_probe(unit, unit_names)
+            if vac.get('error'):
+                undecided_msgs.append('vacuity probe: ' + vac['error'])
             if vac['vacuous']:
                 undecided_msgs.append('vacuity probe: functions with contradictory '
                                       'pre-conditions: %s' % vac['vacuous'])
